@@ -34,6 +34,7 @@ Fixpoint final_store (c : cfg) (x : ext) (S : store) (h : list (Z * xop)) : stor
       let '(F, ok) := final_store c x S' r in
       (F, (is_reload o || step_monotone S now o S') && ok)
   | (_, XDump) :: r | (_, XMarshal) :: r => final_store c x S r
+  | (_, XLimit n) :: r => final_store (xcfg c (XLimit n)) x S r
   end.
 
 Definition prop_case (k : case) : bool :=
